@@ -566,6 +566,25 @@ ssize_t __wrap_recvmsg(int fd, struct msghdr *msg, int flags)
 	return n;
 }
 
+/* access(): the host may lack some of the tools the programs look for (SIMNET_ABSENT = colon-separated paths that do not exist) */
+int __real_access(const char *path, int mode);
+int __wrap_access(const char *path, int mode)
+{
+	const char *ab = getenv("SIMNET_ABSENT");
+	if (ab && path) {
+		size_t n = strlen(path);
+		const char *p = ab;
+		while (*p) {
+			const char *e = strchr(p, ':');
+			size_t l = e ? (size_t)(e - p) : strlen(p);
+			if (l == n && memcmp(p, path, n) == 0) { errno = ENOENT; return -1; }
+			p += l;
+			if (*p == ':') p++;
+		}
+	}
+	return __real_access(path, mode);
+}
+
 /* ------------------------------------------------------------------- tun */
 
 /* chroot(): nothing is really changed (the sanitizer log files must stay reachable); afterwards the usual paths outside an
